@@ -183,6 +183,7 @@ PROPS["C11"] = dict(
     rule="generated programs x mode sequences",
     steps=[
         dict(test="^Test(Regress_C11|C11_Sites)$", quick=dict(checks=150, timeout=900), thorough=dict(checks=1500, shards=8, timeout=3000)),
+        dict(test="^TestC11_Concurrent$", quick=dict(timeout=900), thorough=dict(timeout=3000)),
     ],
 )
 
